@@ -94,7 +94,13 @@ def handle (op : String) (j : Json) : Except String Json := do
   | "merge" =>
     let ivs ← getIvs j
     let d ← getNat j "d"
-    pure (reply (optJ objIv (mergeFixed d (maskData ign ivs))) (some (optJ objIv (specMerge d n (specMask ign ivs)))))
+    let path := (getStr j "path").toOption.getD "mem"
+    let mk := maskData ign ivs
+    let sp := specMask ign ivs
+    let m := if path == "mem" then mergeChecked d isz mk else mergeFixed d mk
+    -- an interval outside its chromosome is not a valid input of the in-memory merge: an error is demanded
+    let s := if path == "mem" && !(sp.all (fun iv => iv.valid isz)) then none else specMerge d n sp
+    pure (reply (optJ objIv m) (some (optJ objIv s)))
   | "clip" | "extend" =>
     let ivs ← getIvZs j
     let L ← if op == "extend" then getInt j "L" else pure 0
